@@ -138,6 +138,25 @@ def bookkeeping_program(cls_name, N, n_ops, tier_quick=True):
     return prog
 
 
+def subtrajectory_priority_program(K):
+    from rl_blox.blox import replay_buffer as rb
+
+    def prog(ctx):
+        with _ov(ctx):
+            buf = rb.SubtrajectoryReplayBufferPER(4, horizon=1)
+            buf.priority.max_priority = mp = sym_real("max_priority", 0, None, lo_open=True)
+            for i in range(K):
+                term, trunc = bool(sym_bool(f"term{i}")), bool(sym_bool(f"trunc{i}"))
+                slot = int(buf.insert_idx)
+                buf.add_sample(observation=[float(i)], action=float(i), reward=sym_real(f"r{i}"), next_observation=[float(i) + 0.5], terminated=int(term), truncated=int(trunc))
+                p = buf.priority.priority[slot]
+                ctx.check((not is_poison(p)) and (p == mp), "new-transition-receives-the-current-maximum-priority")
+                if term or trunc:  # the appended successor row is initialised too
+                    p2 = buf.priority.priority[(slot + 1) % 4]
+                    ctx.check((not is_poison(p2)) and (p2 == mp), "new-transition-receives-the-current-maximum-priority")
+    return prog
+
+
 def weights_program(n, B):
     from rl_blox.blox import replay_buffer as rb
 
@@ -226,6 +245,8 @@ def main(tier, seed):
     for cls in ("LAP", "PrioritizedReplayBuffer"):
         rep.run(f"{cls}:priority-bookkeeping", bookkeeping_program(cls, 2, rep.r.bounds["bookkeeping_ops"], tier == "quick"), max_paths=60000, fn=f"{cls}.add_sample/sample_batch/update_priority/reset_max_priority",
                 site_of=(lambda label, cls=cls: f"{cls}:{label}"))
+    rep.run("SubtrajectoryReplayBufferPER:new-priorities", subtrajectory_priority_program(3 if tier == "quick" else 5), fn="SubtrajectoryReplayBufferPER.add_sample/initialize_priority",
+            site_of=lambda label: f"SubtrajectoryReplayBufferPER:{label}")
     for n in ([2] if tier == "quick" else [2, 3]):
         rep.run(f"compute_importance_ratio[n={n}]", weights_program(n, 2), fn="PrioritizedReplayBuffer.compute_importance_ratio")
     rep.run("MultiTaskReplayBuffer(LAP):update-routing", multitask_routing, fn="MultiTaskReplayBuffer.update_priority")
